@@ -779,13 +779,13 @@ func c09SecondSession(c *harness.Ctx, idx *int) bool {
 func init() {
 	harness.Register(&harness.Check{
 		Property: "C08", Level: "exploration", NeedsConc: true, QuickS: 120, ThoroughS: 900,
-		Rule:   "for each of OpenSent/OpenConfirm/Established x direction: every single-octet marker corruption (3 values), every out-of-range length (0..18, >4096 boundary set), every unknown type octet at lengths 19 and 23, preceded by 0-2 well-formed messages and followed by a well-formed UPDATE, under a set of TCP segmentations; in-range UPDATE length sweep in Established; plugin-returned NOTIFICATIONs of every data length; each case is one run of the real FSM over the virtual wire; non-trivial = header with exactly one fault, or a delivery/fidelity case",
+		Rule:   "for each of OpenSent/OpenConfirm/Established x direction: every single-octet marker corruption (3 values), every out-of-range length (0..18, >4096 boundary set), every unknown type octet at lengths 19 and 23, preceded by 0-2 well-formed messages and followed by a well-formed UPDATE, under a set of TCP segmentations; in-range UPDATE length sweep in Established; plugin-returned NOTIFICATIONs of every data length; KEEPALIVE headers announcing a body (framing must not be lost), octets left unread on a connection that ends must not leak into the next connection; each case is one run of the real FSM over the virtual wire; non-trivial = header with exactly one fault, or a delivery/fidelity case",
 		Assume: []string{"default schedule; virtual network (A3)", "data of (1,1)/(1,2) notifications and per-type minimum lengths are not judged (property silent)"},
 		Run:    c08Check, Replay: stimReplay("C08"),
 	})
 	harness.Register(&harness.Check{
 		Property: "C09", Level: "exploration", NeedsConc: true, QuickS: 120, ThoroughS: 600,
-		Rule:   "the complete (state, message, direction) table: 3 states x {OPEN, UPDATE, KEEPALIVE} x 2 directions, received NOTIFICATIONs with codes 1..7 x subcodes x data lengths, TCP FIN and RST (also inside a message) at each state; every cell is one run of the real FSM over the virtual wire; all cells are non-trivial",
+		Rule:   "the complete (state, message, direction) table: 3 states x {OPEN, UPDATE, KEEPALIVE} x 2 directions, received NOTIFICATIONs with codes 1..7 x subcodes x data lengths, TCP FIN and RST (also inside a message) at each state; every illegal cell also with FIN directly behind it; messages of exactly 4096 octets; the table again on the second session of the same peer (OnClose once per session); every cell is one run of the real FSM over the virtual wire; all cells are non-trivial",
 		Assume: []string{"default schedule; virtual network (A3)"},
 		Run:    c09Check, Replay: stimReplay("C09"),
 	})
